@@ -212,7 +212,7 @@ func (m *Meta) Bind(values ...*value.Value) error {
 
 		var value *value.Value
 		for _, v := range values {
-			if (!v.IsIdentified() && !val.IsIdentified()) || v.Is(example) {
+			if (!v.IsIdentified() && !val.IsIdentified()) || (val.IsIdentified() && v.Is(example)) {
 				value = v
 				break
 			}
